@@ -88,6 +88,8 @@ class Prop(PropBase):
     # ------------------------------------------------------------------ implementation
     def run_impl(self, case):
         if case['kind'] == 'wf':
+            if case.get('pre'):
+                return R.in_child(R.run_wf, case)     # history cases: isolated process
             return R.run_wf(case)
         return R.run_ff(case)
 
@@ -188,6 +190,13 @@ class Prop(PropBase):
         # scalars) that stdlib result is the reference - no pypyr code, no model involved;
         # elsewhere it is the real Context.get_formatted_value (a consistency relation).
         std = 'fp_std' in obs
+        st = obs.get('fetch_stable')
+        if st and not (st['first'] and st['again']):
+            out.append(fail('fetch-is-a-function-of-the-file',
+                            f'{fmt}: the same fetch on the same file and an identical context gave a different '
+                            f'result {"after earlier documents " + repr(case.get("pre")) + " were loaded" if not st["first"] else "when repeated"}: '
+                            f'first {str(obs.get("fetch_first"))[-300:]} vs {str(obs.get("fetch"))[-300:]}',
+                            'fetch-depends-on-history'))
         if injected or (obs['fp'][0] != 'ok' and not std):
             return out
         fp = obs['fp_std'] if std else obs['fp'][1]
@@ -348,6 +357,8 @@ class Prop(PropBase):
             w, fe = obs.get('write'), obs.get('fetch')
             tags.append('write:' + ('skipped' if w is None else w[0] if w[0] == 'ok' else w[1].split('.')[-1]))
             tags.append('fetch:' + ('skipped' if fe is None else fe[0] if fe[0] == 'ok' else fe[1].split('.')[-1]))
+            if case.get('pre'):
+                tags.append('history:' + ('yaml-1.1' if any('%YAML 1.1' in t for t in case['pre']) else 'other'))
             if 'payload' not in case:
                 tags.append('whole-context')
             elif obs['fp'][0] == 'ok':
